@@ -96,6 +96,8 @@ pub enum ExecError {
 pub struct Executor<'a> {
     bins: &'a NodeBins,
     node: Option<Node>,
+    /// a live node of the other build, parked (starting a process costs a matcher compilation)
+    parked: Option<Node>,
     cfg: Option<Config>,
     nonce: String,
     clock: u64,
@@ -108,6 +110,7 @@ impl<'a> Executor<'a> {
         Executor {
             bins,
             node: None,
+            parked: None,
             cfg: None,
             nonce: String::new(),
             clock: 0,
@@ -131,8 +134,22 @@ impl<'a> Executor<'a> {
             None => false,
         };
         if !reuse {
-            self.node = None;
-            self.spawn(cfg.build)?;
+            // swap with the parked node if that one has the wanted build and is alive
+            let parked_ok = match &self.parked {
+                Some(n) => !n.is_dead() && n.build == cfg.build,
+                None => false,
+            };
+            let old = self.node.take();
+            if parked_ok {
+                self.node = self.parked.take();
+            }
+            self.parked = match old {
+                Some(n) if !n.is_dead() => Some(n),
+                _ => None,
+            };
+            if self.node.is_none() {
+                self.spawn(cfg.build)?;
+            }
         }
         self.cfg = Some(cfg.clone());
         self.nonce = nonce.to_string();
